@@ -283,7 +283,10 @@ keybinding_c = Contract(
 instancename_c = Contract(
     X + 'INSTANCENAME.__init__', trusted=True, raises={},
     requires=[('the-class-name-of-the-path-is-handed-over', 'classname == caller_self.classname'),
-              ('one-KEYBINDING-per-key', 'isinstance(data, list) and len(data) == len(caller_self.keybindings.items())')])
+              # (the engine has no cardinality of a symbolic dictionary beyond "empty or not": that the list handed over
+              # has one KEYBINDING per key is the loop invariant below, checked per iteration over the keys)
+              ('KEYBINDING-children-exactly-if-the-path-has-keys',
+               'isinstance(data, list) and (len(data) == 0) == (len(caller_self.keybindings) == 0)')])
 localinstancepath_c = Contract(
     X + 'LOCALINSTANCEPATH.__init__', trusted=True, raises={},
     requires=[('LOCALNAMESPACEPATH-then-INSTANCENAME',
@@ -300,7 +303,7 @@ CONTRACTS.append(Contract(
                                 'INSTANCENAME.__init__': instancename_c, 'LOCALINSTANCEPATH.__init__': localinstancepath_c,
                                 'INSTANCEPATH.__init__': instancepath_c}),
     kinds={'kbs': 'ref'},
-    loops={1: LoopSpec(target='key, value', types={'key': Str, 'value': KEYVAL, 'value_type': Str, 'cim_type': Opt(Str)},
+    loops={1: LoopSpec(target='(key, value)', types={'key': Str, 'value': KEYVAL, 'value_type': Str, 'cim_type': Opt(Str)},
                        modifies=['kbs'], invariant=[('one-KEYBINDING-per-key-so-far', 'len(kbs) == _i')])},
     ensures=[('no-namespace-gives-a-bare-INSTANCENAME',
               f'implies(not {HAS_NS}, isinstance(result, _cim_xml.INSTANCENAME))'),
